@@ -11,7 +11,14 @@ def single_writer(ck, ctx, rule, owner, field, allowed, need_writer=True):
     if fields is None or field not in fields:
         ck.ob("anchor", "%s.%s" % (owner, field), False, "anchor-missing: field %s.%s" % (owner, field), nontrivial=False)
         return {}
-    w = Q.writers(F, owner, field)
+    w_raw = Q.writers(F, owner, field)
+    # closures and new (non-anchored) helpers are attributed to the function they belong to
+    w = {}
+    for fn, v in w_raw.items():
+        o = F.owner(fn)
+        d = w.setdefault(o, {"write": 0, "mutref": 0, "read": 0})
+        for k_ in d:
+            d[k_] += v[k_]
     extra = sorted(set(w) - set(allowed))
     ck.ob(rule, "%s.%s" % (owner, field), not extra, "writers of %s.%s = %s (allowed %s)" % (owner, field, sorted(w), sorted(allowed)), span=owner)
     for x in extra:
@@ -55,11 +62,11 @@ def callers_exact(ck, ctx, rule, callee, allowed, floor=None):
     F = ctx.F
     ck.need("fn " + callee, F.body(callee) or F.call_sites(callee))
     sites = F.call_sites(callee)
-    fns = sorted({b.nname for b, _, _ in sites})
+    fns = sorted({F.owner(b.nname) for b, _, _ in sites})
     extra = sorted(set(fns) - set(allowed))
     ck.ob(rule, callee, not extra, "callers of %s = %s (allowed %s)" % (callee, fns, sorted(allowed)), span=callee)
     for x in extra:
-        ck.ob(rule, "%s<-%s" % (callee, x), False, "unexpected-caller: %s calls %s" % (x, callee), span=F.body(x).loc, fn=x)
+        ck.ob(rule, "%s<-%s" % (callee, x), False, "unexpected-caller: %s calls %s" % (x, callee), span=F.body(x).loc if F.body(x) else None, fn=x)
     if floor is not None:
         ck.floor("call sites of %s" % callee, len(sites), floor)
     for f in fns:
